@@ -1,0 +1,144 @@
+//go:build verif
+
+package journal
+
+import (
+	"encoding/json"
+	"os"
+	"sort"
+	"sync"
+	"sync/atomic"
+
+	"github.com/sboehler/knut/lib/model"
+	"github.com/shopspring/decimal"
+)
+
+// Event log for verification builds (build tag "verif"). With
+// KNUT_VERIF_TRACE=<file> set, every Process call logs, per stage and day,
+// enter/exit events stamped from one atomic counter, and a tail stage that owns
+// each day last logs what the day contains. FromModelStream logs the order in
+// which per-file directive batches arrive. Without the variable nothing is
+// wrapped and nothing is written.
+
+var verifLog struct {
+	mu   sync.Mutex
+	f    *os.File
+	seq  atomic.Int64
+	proc atomic.Int64
+}
+
+func init() {
+	p := os.Getenv("KNUT_VERIF_TRACE")
+	if p == "" {
+		return
+	}
+	f, err := os.OpenFile(p, os.O_CREATE|os.O_WRONLY|os.O_APPEND, 0o644)
+	if err != nil {
+		return
+	}
+	verifLog.f = f
+}
+
+func verifEmit(ev map[string]any) {
+	ev["seq"] = verifLog.seq.Add(1)
+	b, err := json.Marshal(ev)
+	if err != nil {
+		return
+	}
+	b = append(b, '\n')
+	verifLog.mu.Lock()
+	verifLog.f.Write(b)
+	verifLog.mu.Unlock()
+}
+
+type verifTxn struct {
+	Desc     string            `json:"desc"`
+	Postings int               `json:"postings"`
+	Qty      map[string]string `json:"qty"`
+	Val      string            `json:"val"`
+}
+
+func verifWrap(fs []func(*Day) error) []func(*Day) error {
+	if verifLog.f == nil {
+		return fs
+	}
+	proc := verifLog.proc.Add(1)
+	res := make([]func(*Day) error, 0, len(fs)+1)
+	for i, f := range fs {
+		i, f := i, f
+		res = append(res, func(d *Day) error {
+			date := d.Date.Format("2006-01-02")
+			verifEmit(map[string]any{"ev": "enter", "proc": proc, "stage": i, "day": date})
+			err := f(d)
+			ev := map[string]any{"ev": "exit", "proc": proc, "stage": i, "day": date}
+			if err != nil {
+				ev["err"] = true
+			}
+			verifEmit(ev)
+			return err
+		})
+	}
+	res = append(res, func(d *Day) error {
+		var txns []verifTxn
+		for _, t := range d.Transactions {
+			qty := make(map[string]decimal.Decimal)
+			var val decimal.Decimal
+			for _, p := range t.Postings {
+				qty[p.Commodity.Name()] = qty[p.Commodity.Name()].Add(p.Quantity)
+				val = val.Add(p.Value)
+			}
+			names := make([]string, 0, len(qty))
+			for n := range qty {
+				names = append(names, n)
+			}
+			sort.Strings(names)
+			qs := make(map[string]string, len(qty))
+			for _, n := range names {
+				qs[n] = qty[n].String()
+			}
+			txns = append(txns, verifTxn{Desc: t.Description, Postings: len(t.Postings), Qty: qs, Val: val.String()})
+		}
+		verifEmit(map[string]any{
+			"ev": "tail", "proc": proc, "stages": len(fs), "day": d.Date.Format("2006-01-02"),
+			"prices": len(d.Prices), "opens": len(d.Openings), "txns": len(d.Transactions),
+			"assertions": len(d.Assertions), "closes": len(d.Closings), "t": txns,
+		})
+		return nil
+	})
+	return res
+}
+
+func verifArrival(ds []model.Directive) {
+	if verifLog.f == nil {
+		return
+	}
+	var first string
+	for _, d := range ds {
+		switch t := d.(type) {
+		case *model.Transaction:
+			if t.Src != nil {
+				first = t.Src.Path
+			}
+		case *model.Open:
+			if t.Src != nil {
+				first = t.Src.Path
+			}
+		case *model.Close:
+			if t.Src != nil {
+				first = t.Src.Path
+			}
+		case *model.Price:
+			if t.Src != nil {
+				first = t.Src.Path
+			}
+		case *model.Assertion:
+			if t.Src != nil {
+				first = t.Src.Path
+			}
+		}
+		if first != "" {
+			break
+		}
+	}
+	verifEmit(map[string]any{"ev": "arrival", "n": len(ds), "path": first})
+}
